@@ -36,3 +36,41 @@ m("c01-rectifier-single-drop", ["C01"], C,
 m("c01-pswitch-negative-rail-sign", ["C01"], C,
   "        v = abs(vi[0]) - self._params[\"rs\"] * io\n        if phase_conf and phase not in phase_conf:\n            return 0.0, STATE_OFF\n        if vi[0] >= 0.0:\n            return v, STATE_DEFAULT\n        return -v, STATE_DEFAULT\n\n    def _solv_pwr_loss(self, vi, vo, ii, io, ta, phase, phase_conf=[], pstate={}):\n        \"\"\"Calculate power and loss in PSwitch",
   "        v = vi[0] - self._params[\"rs\"] * io\n        if phase_conf and phase not in phase_conf:\n            return 0.0, STATE_OFF\n        return v, STATE_DEFAULT\n\n    def _solv_pwr_loss(self, vi, vo, ii, io, ta, phase, phase_conf=[], pstate={}):\n        \"\"\"Calculate power and loss in PSwitch")
+
+# ---- C03 -------------------------------------------------------------------------------------
+m("c03-convergence-on-v-only", ["C03"], Y,
+  "            if np.allclose(np.array(v), np.array(vi), rtol=vtol) and np.allclose(\n                np.array(i), np.array(ii), rtol=itol\n            ):",
+  "            if np.allclose(np.array(v), np.array(vi), rtol=vtol):")
+m("c03-compare-v-with-itself", ["C03"], Y,
+  "            if np.allclose(np.array(v), np.array(vi), rtol=vtol) and np.allclose(",
+  "            if np.allclose(np.array(vi), np.array(vi), rtol=vtol) and np.allclose(")
+m("c03-rloss-guard-removed", ["C03"], C,
+  "        vo = vi[0] - self._params[\"rs\"] * io * np.sign(vi[0])\n        if np.sign(vo) == np.sign(vi[0]):\n            return vo, STATE_DEFAULT",
+  "        vo = vi[0] - self._params[\"rs\"] * io * np.sign(vi[0])\n        if True:\n            return vo, STATE_DEFAULT")
+m("c03-maxiter-ignored", ["C03"], Y, "        while iters <= maxiter:", "        while iters <= max(maxiter, 100):")
+m("c03-itol-times-100", ["C03"], Y, "                np.array(i), np.array(ii), rtol=itol\n", "                np.array(i), np.array(ii), rtol=itol * 100\n")
+
+# ---- C04 -------------------------------------------------------------------------------------
+m("c04-iload-dead-guard-dropped", ["C04"], C,
+  "    def _solv_inp_curr(self, vi, vo, io, phase, phase_conf={}, pstate={}):\n        if abs(vi[0]) == 0.0 or _get_lopt(pstate, \"off\", 0, False):\n            return 0.0\n        if not phase_conf:\n            i = self._params[\"ii\"]",
+  "    def _solv_inp_curr(self, vi, vo, io, phase, phase_conf={}, pstate={}):\n        if _get_lopt(pstate, \"off\", 0, False):\n            return 0.0\n        if not phase_conf:\n            i = self._params[\"ii\"]")
+m("c04-converter-sleep-current-on-dead-supply", ["C04"], C,
+  "        if (\n            abs(vi[0]) == 0.0\n            or self._params[\"vo\"] == 0.0\n            or _get_lopt(pstate, \"off\", 0, False)\n        ):\n            return 0.0\n        ve = vi[0] * self._ipr._interp(abs(io), abs(vi[0]))\n        if phase_conf and phase not in phase_conf:\n            return self._params[\"iis\"]",
+  "        if phase_conf and phase not in phase_conf:\n            return self._params[\"iis\"]\n        if (\n            abs(vi[0]) == 0.0\n            or self._params[\"vo\"] == 0.0\n            or _get_lopt(pstate, \"off\", 0, False)\n        ):\n            return 0.0\n        ve = vi[0] * self._ipr._interp(abs(io), abs(vi[0]))")
+m("c04-sleeping-pswitch-draws-ig", ["C04"], C,
+  "        i = io + self._ipr._interp(abs(io), abs(vi[0]))\n        if phase_conf and phase not in phase_conf:\n            i = self._params[\"iis\"]\n        return i\n\n    def _solv_outp_volt(self, vi, ii, io, phase, phase_conf=[], pstate={}):\n        \"\"\"Calculate PSwitch",
+  "        i = io + self._ipr._interp(abs(io), abs(vi[0]))\n        if phase_conf and phase not in phase_conf:\n            i += self._params[\"iis\"]\n        return i\n\n    def _solv_outp_volt(self, vi, ii, io, phase, phase_conf=[], pstate={}):\n        \"\"\"Calculate PSwitch")
+
+# ---- C06 -------------------------------------------------------------------------------------
+m("c06-pload-sleep-when-listed", ["C06"], C,
+  "        elif phase not in phase_conf:\n            p = self._params[\"pwrs\"]\n        else:\n            p = phase_conf[phase]",
+  "        elif phase in phase_conf:\n            p = self._params[\"pwrs\"]\n        else:\n            p = phase_conf.get(phase, self._params[\"pwr\"])")
+m("c06-rload-unlisted-open", ["C06"], C,
+  "        elif phase not in phase_conf:\n            pass\n        else:\n            r = phase_conf[phase]",
+  "        elif phase not in phase_conf:\n            r = 1e12\n        else:\n            r = phase_conf[phase]")
+m("c06-unknown-phase-ignored", ["C06"], Y,
+  "                raise ValueError(\n                    \"The specified phase '{}' is not defined\".format(phase)\n                )\n            phase_list = [phase]",
+  "                phase = \"\"\n            phase_list = [phase] if phase != \"\" else list(self._g.attrs[\"phases\"].keys()) or [\"\"]")
+m("c06-first-phase-solved-twice", ["C06"], Y,
+  "            v, i, iters, state = self._solve(vtol, itol, maxiter, quiet, ph)",
+  "            v, i, iters, state = self._solve(vtol, itol, maxiter, quiet, ph if len(phase_list) < 3 or ph != phase_list[-1] else phase_list[0])")
